@@ -35,7 +35,12 @@ overflow-checks = false
 ''' % REPO
 
 MAIN_HEAD = '''#![allow(warnings)]
+mod support {
+%s
+}
+use support::*;
 mod g {
+%s
 %s
 }
 use g::*;
@@ -99,8 +104,8 @@ fn dec<T: Packet + std::fmt::Debug>(op: &str, b: &[u8]) -> String {
 class NativeRunner:
     """one compiled runner per generated module text"""
 
-    def __init__(self, gen_text: str, types: List[str], extra_ops: str = '', extra_arms: str = ''):
-        h = hashlib.sha1((gen_text + extra_ops + extra_arms).encode()).hexdigest()[:12]
+    def __init__(self, gen_text: str, types: List[str], extra_ops: str = '', extra_arms: str = '', inner: str = ''):
+        h = hashlib.sha1((gen_text + extra_ops + extra_arms + inner).encode()).hexdigest()[:12]
         self.dir = os.path.join(WORK, 'replay', h)
         self.target = os.path.join(TARGET, 'replay')
         src = os.path.join(self.dir, 'src')
@@ -110,7 +115,9 @@ class NativeRunner:
         shutil.copy(os.path.join(REPO, 'Cargo.lock'), os.path.join(self.dir, 'Cargo.lock'))
         gen_text = re.sub(r'(?m)^///.*$', '', gen_text)
         arms = '\n'.join(f'        ("{t}", _) => dec::<{t}>(op, b),' for t in types)
-        main = MAIN_HEAD % gen_text.replace('pub struct', 'pub struct') + extra_ops + '''
+        from .build import VERIF
+        support = open(os.path.join(VERIF, 'kani_support', 'support.rs')).read().replace('#![allow(dead_code, unused)]', '')
+        main = MAIN_HEAD % (support, gen_text, inner) + extra_ops + '''
 fn run(ty: &str, op: &str, b: &[u8], words: &[u64]) -> String {
     match (ty, op) {
 %s
